@@ -262,7 +262,8 @@ def execute(par, hist, timeout=30.0):
         psutil.virtual_memory = orig_vm
         # release the dataset so that the disk cache clears its directory
         ds = handed = x = None
-        gc.collect()
+    if cache_dir is not None and os.path.exists(cache_dir):
+        gc.collect()                     # (a full collection is slow: only when needed)
     obs = {'steps': steps, 'final': final}
     if cache_dir is not None and os.path.exists(cache_dir):
         obs['leftover_dir'] = True
@@ -280,8 +281,13 @@ def execute_all(jobs, chunk=100, timeout=3000):
     if not chunks:
         return []
     common.scratch()                     # created in the parent, inherited by the workers
-    with mp.get_context('fork').Pool(common.NCPU) as pool:
-        out = pool.map_async(_execute_chunk, chunks).get(timeout)
+    gc.collect()
+    gc.freeze()                          # the workers' collections skip the inherited heap
+    try:
+        with mp.get_context('fork').Pool(common.NCPU) as pool:
+            out = pool.map_async(_execute_chunk, chunks).get(timeout)
+    finally:
+        gc.unfreeze()
     return [o for c in out for o in c]
 
 
@@ -458,6 +464,7 @@ def run(prop, tier):
     res.coverage['traces_validated_against_impl'] = len(records)
     res.coverage['evaluations'] = len(records)
     by_clause, by_mode, known, samples, nontrivial = {}, {}, {}, [], 0
+    viol_counts = {}
     for rec in records:
         v = verdicts[rec['id']]
         status, clause = v[prop]
@@ -489,14 +496,19 @@ def run(prop, tier):
         bad = [o for o in rec['obs']['steps'] if o['exc'] != 'none' or o['tv'] or o['nv']
                or o['at'] or o['an'] or o['ast'] or o['asn']]
         bad_final = [o for o in rec['obs']['final'] if o['exc'] != 'none' or o['tv'] or o['nv']]
+        # every violating history is counted; at most 3 replay files per
+        # (classification, clause) and 25 in total are written
+        vkey = f'{tag}|{clause}'
+        viol_counts[vkey] = viol_counts.get(vkey, 0) + 1
+        if viol_counts[vkey] > 3 or len(res.violations) >= 25:
+            continue
         res.violation(f'{tag + " " if tag else ""}{clause}: {text}',
                       {'family': 'isolation', 'par': rec['par'], 'hist': rec['hist'],
                        'obs': rec['obs'], 'verdict': [status, clause], 'classification': tag,
                        'model_verdict': v['mv'], 'conformance': v['conf'],
                        'offending_steps': bad[:4], 'offending_final_reads': bad_final[:4],
                        'how': 'real observation judged by TLC (IsolationTrace.tla, V_C09)'})
-        if len(res.violations) >= 25:
-            break
+    res.coverage['violating_histories'] = viol_counts
     if not samples and records:
         samples.append({'history': short(records[0]['par'], records[0]['hist']),
                         'verdict': list(verdicts[records[0]['id']][prop])})
